@@ -19,6 +19,7 @@ PLANS = {
     "C06": {"level": "exploration", "exhaustive": False, "legs": [leg("main")]},
     "C07": {"level": "exploration", "exhaustive": False, "legs": [leg("main")]},
     "C08": {"level": "exploration", "exhaustive": False, "legs": [leg("main"), leg("race", flavour="race", tiers=("thorough",), env={"VERIF_SMALL": "1"})]},
+    "C09": {"level": "exploration", "exhaustive": False, "legs": [leg("main"), leg("race", flavour="race", tiers=("thorough",), env={"VERIF_SMALL": "1"})]},
     "C11": {"level": "exploration", "exhaustive": False, "legs": [leg("main"), leg("race", flavour="race", tiers=("thorough",), env={"VERIF_SMALL": "1"})]},
     "C12": {"level": "exploration", "exhaustive": False, "replay_flavour": "race",
             "legs": [leg("main", flavour="race", race_is_violation=True, batches={"quick": 4, "thorough": 32}, parallel=4,
